@@ -118,6 +118,20 @@ func checkC08(c *BatchOpsCase) *ev.Failure {
 	if len(raw) != len(c.Ops) {
 		return ev.Failf("length", "batch of %d operations answered with %d results", len(c.Ops), len(raw))
 	}
+	// executions: what the services were asked to execute for the batch is what they are asked for the operations alone
+	// (a mutation repeated in a batch is executed as often as it is written)
+	mutationsSeen := func() []string {
+		var r []string
+		for _, q := range net.Snapshot() {
+			if q.OpKeyword == "mutation" {
+				r = append(r, q.Service+" | "+q.Query+" | "+canonical(q.Variables))
+			}
+		}
+		net.Reset()
+		return r
+	}
+	inBatch := mutationsSeen()
+	var alone []string
 	for i, op := range c.Ops {
 		got, derr := gwx.Decode(raw[i])
 		if derr != nil {
@@ -127,6 +141,7 @@ func checkC08(c *BatchOpsCase) *ev.Failure {
 		if single.TimedOut || single.Panic != "" {
 			return ev.Failf("harness", "single run of op %d did not complete: %s", i, trunc(single.Panic, 300))
 		}
+		alone = append(alone, mutationsSeen()...)
 		want, werr := gwx.Decode(single.Body)
 		if werr != nil {
 			return ev.Failf("harness", "single run of op %d: %v", i, werr)
@@ -139,6 +154,11 @@ func checkC08(c *BatchOpsCase) *ev.Failure {
 		if strings.Join(ge, "\n") != strings.Join(we, "\n") {
 			return ev.Failf("element-differs:errors", "result %d (%s): errors differ from the single run\nalone %v\nbatch %v", i, c.Kinds[i], we, ge)
 		}
+	}
+	sort.Strings(inBatch)
+	sort.Strings(alone)
+	if strings.Join(inBatch, "\n") != strings.Join(alone, "\n") {
+		return ev.Failf("executions:mutations", "the services executed %d mutation sub-requests for the batch and %d for the same operations alone\nbatch %v\nalone %v", len(inBatch), len(alone), inBatch, alone)
 	}
 	return nil
 }
